@@ -14,7 +14,7 @@ CHECKS["C07"] = dict(
  design_ref="DESIGN.md 4.5, 5/C07")
 CHECKS["C16"] = dict(
  text="Grid.tla is one axis of the grid in exact rationals (point i at min + i*d, exactly N points, last point, closest-to-zero index, trimming lengths); TLC checks these facts on the spec and enumerates every (N, min, spacing, order) over rational sets that include 1/10, 3/10, 1/3, 7/10, 1/7, 1/20, 11/10; every state is used once on each axis of a real FiniteDifference object and compared with its attributes, derived arrays, trimming helpers on 1/2/3-D non-cubic arrays and with the consumers (AurelCore.data_shape, default fields, tetrad_base). Exhaustive over the enumerated parameter sets.",
- note="N in 3..26 (quick) / 3..72 (thorough) x 7 mins x 9 spacings x 4 orders. Coordinates compared within 8 ulp of the rational value. The Cartesian<->spherical round trip and consumer shapes are evaluated by the harness on the spec-enumerated grids (harness-side clauses, not TLC facts).",
+ note="N in 3..26 (quick) / 3..56 (thorough) x 7 mins x 9 spacings x 4 orders. Coordinates compared within 8 ulp of the rational value. The Cartesian<->spherical round trip and consumer shapes are evaluated by the harness on the spec-enumerated grids (harness-side clauses, not TLC facts).",
  technique="TLA+ spec of the grid in exact rationals model-checked with TLC; every enumerated state replayed against the real FiniteDifference object",
  design_ref="DESIGN.md 4.6, 5/C16")
 CHECKS["C01"] = dict(
